@@ -580,6 +580,8 @@ pub struct Cfg {
     /// Scale factor applied to case counts (used by sanitizer stages that are much slower).
     pub scale_div: u64,
     pub mode: String,
+    /// (i, n): only run cases with idx % n == i (sharded sanitizer processes)
+    pub shard: Option<(u64, u64)>,
 }
 
 impl Cfg {
@@ -621,6 +623,11 @@ where
                     }
                     let end = std::cmp::min(n, start + chunk);
                     for idx in start..end {
+                        if let Some((si, sn)) = cfg.shard {
+                            if idx % sn != si {
+                                continue;
+                            }
+                        }
                         let mut rng = Rng::for_case(cfg.seed, stage, idx);
                         let r = catch(|| f(idx, &mut rng, &mut local));
                         if let Err(p) = r {
